@@ -701,6 +701,14 @@ func (in *interp) harnessAPI(fr *frame, name string, args []value) (value, bool)
 		return ts.Or(in.asTerm(args[0], "vOr"), in.asTerm(args[1], "vOr")), true
 	case "vIteInt64":
 		return ts.Ite(in.asTerm(args[0], "vIte"), in.asTerm(args[1], "vIte"), in.asTerm(args[2], "vIte")), true
+	case "vJSONBind":
+		// vJSONBind(msg []byte, o interface{}): decoding msg yields (a copy of) *o
+		m, _ := args[0].([]value)
+		if len(m) == 0 {
+			in.unsupported("vJSONBind: empty message")
+		}
+		in.jsonBinds = append(in.jsonBinds, jsonBind{first: in.asTerm(m[0], "vJSONBind byte"), n: len(m), obj: args[1]})
+		return nil, true
 	case "vStubCalls":
 		// number of calls so far on this path of by-name stubbed functions whose name contains the argument
 		sub := goString(fr, args[0])
@@ -979,6 +987,52 @@ func (in *interp) runStub(fr *frame, fi *fnInfo, args []value) value {
 			return mk(func(t types.Type, i int) value { return in.freshOfType(t, "uf."+fi.name, n) })
 		})
 		return copyDeep(r)
+	case "jsonbind":
+		// func Unmarshal(data []byte, v interface{}) error : v receives the object bound to data by vJSONBind
+		data, _ := args[0].([]value)
+		dst, ok := args[1].(iface)
+		if len(data) > 0 && ok {
+			for _, b := range in.jsonBinds {
+				if b.first != data[0] || b.n != len(data) {
+					continue
+				}
+				src, ok2 := b.obj.(iface)
+				if !ok2 || !sameType(src.t, dst.t) {
+					break
+				}
+				sp, _ := src.v.(*value)
+				dp, _ := dst.v.(*value)
+				if sp == nil || dp == nil {
+					break
+				}
+				store(deref(dst.t), dp, load(deref(src.t), sp))
+				return iface{}
+			}
+		}
+		return in.makeError("stubbed json.Unmarshal: no object bound to these bytes")
+	case "argbyte":
+		// argbyte:<arg>:<index>:<value> : result = (arg[index] == value)
+		var ai, bi, bv int
+		fmt.Sscan(parts[1], &ai)
+		fmt.Sscan(parts[2], &bi)
+		fmt.Sscan(parts[3], &bv)
+		a := args[ai]
+		if p, ok := a.(*value); ok && p != nil {
+			a = *p
+		}
+		var el value
+		switch x := a.(type) {
+		case array:
+			el = x[bi]
+		case []value:
+			if bi >= len(x) {
+				return in.ts.False
+			}
+			el = x[bi]
+		default:
+			in.unsupported("argbyte: unexpected argument shape")
+		}
+		return in.ts.Eq(in.asTerm(el, "argbyte"), in.ts.BV(uint64(bv), 8))
 	case "errif-prefix":
 		// func(path string, ...) error : fails iff path starts with the given prefix
 		path, ok := args[0].(string)
